@@ -24,6 +24,7 @@ from .. import core, sxvm
 LEVEL = "exploration"
 RULE = ("constants (F_max,l,Cm,Ct) in {(4,1,1,1),(20,1/4,2/125,1/117000),(1,3,1/2,2),(10,1/10,1/2,1),(2,1e-8,1e-7,1e-9),(1000,50,200,1e4)}; (a) target motor forces in {-F/4,0,F/4,F/2,F,5F/4}^4 mapped through the vehicle "
         "geometry G (1296 per constant set, all exact ties included); (b) T in {-5,0,1/1000,F,2F,4F-eps,4F,10F,1e6,1e18 F,-1e18} x M in {0,+-eps,+-F l/4,+-M_max,+-1e6,+-1e18 M_max}^3. "
+        "(c) rays: one target motor force swept -F/4..5F/4 (3 bases x 4 motors), thrust and each moment demand swept through and beyond their range and through zero on a log grid (3 bases): members on both sides of every outcome change of the compiled program (comparisons, fmin/fmax, pieces of floor/sign/fabs) + cell midpoints. "
         "non-trivial = non-zero moment demand; distinct by exact input tuple")
 ASSUMPTIONS = ["vehicle geometry G: motor sign pattern (-,-,-),(+,+,-),(+,-,+),(-,+,+) of roll, pitch, yaw-reaction moments as in the shipped quadrotor model",
                "exact rational arithmetic (Fraction) on the real instruction list; omega judged in double"]
